@@ -91,7 +91,13 @@ type Case struct {
 	Manifest []Req    `json:"manifest"`
 	Vulns    []Vuln   `json:"vulns,omitempty"`
 	Cfg      []string `json:"cfg,omitempty"` // "level" (default) or "pkg:level", level in major|minor|patch|none
-	Opt      Opts     `json:"opt"`
+	// Names optionally maps short package names to the registry names used everywhere (schema, manifest, OSV
+	// records, upgrade config), e.g. d1 -> "JSONStream" / "com.zaxxer:HikariCP"; unmapped names use FullName.
+	Names map[string]string `json:"names,omitempty"`
+	// CfgRoute selects how UpgradeConfig builds the upgrade.Config: "" = Config.Set / SetDefault,
+	// "strings" = upgrade.NewConfigFromStrings (the route a command line takes).
+	CfgRoute string `json:"cfgRoute,omitempty"`
+	Opt      Opts   `json:"opt"`
 }
 
 // FullName maps a short package name to the registry name of the ecosystem.
@@ -100,6 +106,14 @@ func FullName(eco, short string) string {
 		return "g:" + short
 	}
 	return short
+}
+
+// Full maps a short package name of the case to its registry name (Names override, else FullName).
+func (c *Case) Full(short string) string {
+	if n, ok := c.Names[short]; ok {
+		return n
+	}
+	return FullName(c.Eco, short)
 }
 
 // ShortName is the inverse of FullName.
@@ -122,12 +136,12 @@ func (c *Case) System() resolve.System {
 func (c *Case) SchemaText() string {
 	var b strings.Builder
 	for _, p := range c.Pkgs {
-		b.WriteString(FullName(c.Eco, p.Name))
+		b.WriteString(c.Full(p.Name))
 		b.WriteByte('\n')
 		for _, v := range p.Vers {
 			b.WriteString("\t" + v.V + "\n")
 			for _, d := range v.Deps {
-				b.WriteString("\t\t" + FullName(c.Eco, d.Name) + "@" + d.Req + "\n")
+				b.WriteString("\t\t" + c.Full(d.Name) + "@" + d.Req + "\n")
 			}
 		}
 	}
@@ -167,10 +181,10 @@ func (c *Case) packageJSON() []byte {
 		for _, r := range c.Manifest {
 			if r.Dev == dev {
 				if r.Alias != "" {
-					lines = append(lines, fmt.Sprintf("    %q: %q", r.Alias, "npm:"+r.Name+"@"+r.Req))
+					lines = append(lines, fmt.Sprintf("    %q: %q", r.Alias, "npm:"+c.Full(r.Name)+"@"+r.Req))
 					continue
 				}
-				lines = append(lines, fmt.Sprintf("    %q: %q", r.Name, r.Req))
+				lines = append(lines, fmt.Sprintf("    %q: %q", c.Full(r.Name), r.Req))
 			}
 		}
 		if len(lines) == 0 {
@@ -203,7 +217,8 @@ func (c *Case) pomXML() []byte {
 		if r.Prop != "" {
 			ver = "${" + r.Prop + "}"
 		}
-		o := indent + "<dependency>\n" + indent + "  <groupId>g</groupId>\n" + indent + "  <artifactId>" + r.Name + "</artifactId>\n"
+		grp, art, _ := strings.Cut(c.Full(r.Name), ":")
+		o := indent + "<dependency>\n" + indent + "  <groupId>" + grp + "</groupId>\n" + indent + "  <artifactId>" + art + "</artifactId>\n"
 		if !r.NoVersion {
 			o += indent + "  <version>" + ver + "</version>\n"
 		}
@@ -276,7 +291,7 @@ func (c *Case) OSV() []*osvschema.Vulnerability {
 		rec := &osvschema.Vulnerability{
 			ID: v.ID,
 			Affected: []osvschema.Affected{{
-				Package: osvschema.Package{Ecosystem: eco, Name: FullName(c.Eco, v.Pkg)},
+				Package: osvschema.Package{Ecosystem: eco, Name: c.Full(v.Pkg)},
 				Ranges:  []osvschema.Range{{Type: typ, Events: ev}},
 			}},
 		}
@@ -316,10 +331,21 @@ var levelByName = map[string]upgrade.Level{"major": upgrade.Major, "minor": upgr
 
 // UpgradeConfig builds the upgrade.Config from Cfg (short package names are mapped to registry names).
 func (c *Case) UpgradeConfig() upgrade.Config {
+	if c.CfgRoute == "strings" {
+		var ss []string
+		for _, s := range c.Cfg {
+			if i := strings.LastIndex(s, ":"); i >= 0 {
+				ss = append(ss, c.Full(s[:i])+":"+s[i+1:])
+			} else {
+				ss = append(ss, s)
+			}
+		}
+		return upgrade.NewConfigFromStrings(ss)
+	}
 	cfg := upgrade.NewConfig()
 	for _, s := range c.Cfg {
 		if i := strings.LastIndex(s, ":"); i >= 0 {
-			cfg.Set(FullName(c.Eco, s[:i]), levelByName[s[i+1:]])
+			cfg.Set(c.Full(s[:i]), levelByName[s[i+1:]])
 		} else {
 			cfg.SetDefault(levelByName[s])
 		}
@@ -334,7 +360,7 @@ func (c *Case) Level(fullName string) int {
 	def, got := 0, -1
 	for _, s := range c.Cfg {
 		if i := strings.LastIndex(s, ":"); i >= 0 {
-			if FullName(c.Eco, s[:i]) == fullName {
+			if c.Full(s[:i]) == fullName {
 				got = idx[s[i+1:]]
 			}
 		} else {
